@@ -34,6 +34,55 @@ pub struct DeserCase {
     pub enc: Enc,
     pub edits: Vec<Edit>,
     pub follow: Vec<Op>,
+    /// `(which, below_max)`: after the other edits and after the declared-length screen, the
+    /// generation of one identifier of the input (a stored entity's or a free-list entry's) is set
+    /// to `u64::MAX - below_max`, so that the follow-up history can wrap the generation of that
+    /// slot around (JSON encoding only).
+    #[serde(default)]
+    pub boost: Option<(u16, u8)>,
+}
+
+/// See `DeserCase::boost`.
+fn apply_generation_boost(e: &Encoded, boost: Option<(u16, u8)>) -> Option<Encoded> {
+    let (which, below) = boost?;
+    let Encoded::Json(text) = e else { return None };
+    let mut v = serde_json::from_str::<Value>(text).ok()?;
+    fn is_id(m: &serde_json::Map<String, Value>) -> bool {
+        m.len() == 2 && m.contains_key("index") && m.contains_key("generation")
+    }
+    fn count(v: &Value) -> usize {
+        match v {
+            Value::Object(m) if is_id(m) => 1,
+            Value::Object(m) => m.values().map(count).sum(),
+            Value::Array(a) => a.iter().map(count).sum(),
+            _ => 0,
+        }
+    }
+    /// sets the generation of the `k`-th identifier (document order); returns how many were passed
+    fn set(v: &mut Value, k: &mut usize, to: u64) -> bool {
+        match v {
+            Value::Object(m) if is_id(m) => {
+                if *k == 0 {
+                    m.insert("generation".into(), Value::from(to));
+                    return true;
+                }
+                *k -= 1;
+                false
+            }
+            Value::Object(m) => m.values_mut().any(|x| set(x, k, to)),
+            Value::Array(a) => a.iter_mut().any(|x| set(x, k, to)),
+            _ => false,
+        }
+    }
+    let n = count(&v);
+    if n == 0 {
+        return None;
+    }
+    let mut k = idx(which, n);
+    if !set(&mut v, &mut k, u64::MAX - below as u64) {
+        return None;
+    }
+    Some(Encoded::Json(serde_json::to_string(&v).ok()?))
 }
 
 #[derive(Clone, Debug, Serialize, Deserialize)]
@@ -861,6 +910,7 @@ pub struct DeserStats {
     pub screened: bool,
     pub leak_signature: String,
     pub leak_excluded: bool,
+    pub boosted: bool,
 }
 
 pub struct DeserOutcome {
@@ -912,6 +962,14 @@ pub fn run_deser_case_known<R: Reg>(case: &DeserCase, prop: &str, slot: usize, l
                 _ => None,
             };
         }
+        let edited = match apply_generation_boost(&edited, case.boost) {
+            Some(e) => {
+                stats.edited_differs = true;
+                stats.boosted = true;
+                e
+            }
+            None => edited,
+        };
         // 2. deserialize the edited input
         ledger::take_errors();
         ledger::take_made();
@@ -1116,9 +1174,23 @@ fn case_strategy(thorough: bool) -> BoxedStrategy<DeserCase> {
     follow.w0_bias = 90;
     follow.round_trip = 5;
     let edit = (any::<u8>(), any::<u16>(), any::<u16>(), any::<u16>()).prop_map(|(kind, a, b, v)| Edit { kind, a, b, v });
-    (history_strategy(&base), prop::sample::select(ENCS.to_vec()), prop::collection::vec(edit, 1..=4), history_strategy(&follow))
-        .prop_map(|(base, enc, edits, follow)| DeserCase { base, enc, edits, follow })
-        .boxed()
+    let general = (history_strategy(&base), prop::sample::select(ENCS.to_vec()), prop::collection::vec(edit, 1..=4), history_strategy(&follow))
+        .prop_map(|(base, enc, edits, follow)| DeserCase { base, enc, edits, follow, boost: None });
+    // generation wrap-around: a valid JSON serialization in which one identifier's generation is
+    // raised to u64::MAX (or one below); the follow-up history removes and inserts a lot, so that
+    // the slot is freed and reused across the wrap
+    let mut churn = Profile::base();
+    churn.max_ops = if thorough { 40 } else { 24 };
+    churn.w0_bias = 100;
+    churn.remove = 34;
+    churn.insert = 30;
+    churn.extend = 8;
+    churn.clear = 2;
+    churn.round_trip = 3;
+    churn.par_query = 0;
+    let wrap = (history_strategy(&base), history_strategy(&churn), any::<u16>(), 0u8..2)
+        .prop_map(|(base, follow, which, below)| DeserCase { base, enc: Enc::Json, edits: Vec::new(), follow, boost: Some((which, below)) });
+    prop_oneof![9 => general, 1 => wrap].boxed()
 }
 
 #[derive(Clone, Debug, Default)]
@@ -1220,6 +1292,7 @@ pub fn run_deser<R: Reg>(cfg: &crate::runner::Config) -> DeserReport {
                             add("values_leaked_by_failed_deserialization".into(), st.leaked_on_error);
                             add("follow_up_ops_on_accepted_worlds".into(), st.follow_ops as u64);
                             add(format!("enc_{:?}", case.enc), 1);
+                            add("generation_raised_to_u64_max_before_the_follow_up".into(), st.boosted as u64);
                             if st.outcome_err {
                                 add(format!("err: {}", st.err_class), 1);
                                 if st.leaked_on_error > 0 {
